@@ -403,3 +403,60 @@ Definition apply_fin (R : Rules) (a : agg) (o : fin_op) : agg :=
   end.
 Definition status_is (s t : vstatus) : bool :=
   match s, t with Complete, Complete | Partial, Partial | Invalid, Invalid => true | _, _ => false end.
+
+(* ------------------------------------------------------------------ *)
+(* Shapes of launch traces (used by the launch-level prefix theorem)   *)
+Definition keyb (k k' : lkey) : bool := N.eqb (fst k) (fst k') && Z.eqb (snd k) (snd k').
+
+(* what a record does to the aggregate of launch k *)
+Definition laction (k : lkey) (x : record) : option (launch_agg -> launch_agg) :=
+  match launch_effect x with
+  | Some (k', f) => if keyb k' k then Some f else None
+  | None => None
+  end.
+
+
+(* Shapes of a launch's records *)
+Definition is_lstart (k : lkey) (planned : option Z) (x : record) : bool :=
+  match x with
+  | RSStart (Some l) (Some t) p =>
+      keyb (l, t) k && negb (N.eqb l 0) &&
+      match p, planned with Some a, Some b => Z.eqb a b | None, None => true | _, _ => false end
+  | _ => false
+  end.
+Definition is_lend (k : lkey) (x : record) : bool :=
+  match x with RSEnd (Some l) (Some t) => keyb (l, t) k && negb (N.eqb l 0) | _ => false end.
+(* a record of the launch's body: not one of its two lifecycle edges *)
+Definition not_ledge (k : lkey) (x : record) : bool :=
+  match x with
+  | RSStart (Some l) (Some t) _ | RSEnd (Some l) (Some t) => negb (keyb (l, t) k)
+  | _ => true
+  end.
+(* the run a body record attaches to launch k, if any *)
+Definition lrun_of (k : lkey) (x : record) : option N :=
+  match x with
+  | PStart rid _ _ _ (Some l) (Some t) =>
+      match truthy rid with Some r => if keyb (l, t) k then Some r else None | None => None end
+  | _ => None
+  end.
+Fixpoint lruns (k : lkey) (l : list record) : list N :=
+  match l with
+  | [] => []
+  | x :: tl => match lrun_of k x with Some r => r :: lruns k tl | None => lruns k tl end
+  end.
+
+
+(* finite sanity predicate on the generated launch chain *)
+Definition launch_env_of (s e p rp ri : bool) (a : atom) : bool :=
+  match a with
+  | ASawStart => s | ASawEnd => e | APipes => p | ARunsPartial => rp | ARunsInvalid => ri | AObserved => false
+  end.
+Definition launch_chain_ok (R : Rules) : bool :=
+  forallb (fun p => forallb (fun rp => forallb (fun ri =>
+    match eval_chain (launch_env_of true false p rp ri) (launch_chain R) (launch_default R),
+          eval_chain (launch_env_of true true p rp ri) (launch_chain R) (launch_default R) with
+    | Partial, Complete => negb (rp || ri)
+    | Partial, Partial => rp || ri
+    | _, _ => false
+    end) bools) bools) bools.
+
